@@ -409,9 +409,10 @@ def fam_adv(rng):
     th = [ops]
     nw = rng.choice([1, 1, 2])
     for w in range(2, 2 + nw):
-        th.append([{"op": "store", "c": 0, "v": new()} for _ in range(rng.choice([60, 150, 300]))])
-    p = prog_with_setup(rng, th, strategy=rng.choice(["default", "default", "nofast"]), reuse="lifo", pnull=0.0)
-    p["_sched"] = {"kind": "adversary", "victim": 1, "k": rng.choice([1, 1, 2, 4])}
+        th.append([{"op": "store", "c": 0, "v": new()} for _ in range(rng.choice([150, 300, 600]))])
+    # no address reuse here: with reuse the k-th new value may sit at the old address again and the confirming read matches
+    p = prog_with_setup(rng, th, strategy=rng.choice(["default", "default", "nofast"]), reuse=rng.choice(["never", "never", "fifo"]), pnull=0.0)
+    p["_sched"] = {"kind": "adversary", "victim": 1, "k": rng.choice([1, 1, 1, 2]), "warm": 2 + held}
     return p
 
 
@@ -458,7 +459,20 @@ def fam_access(rng):
     return prog_with_setup(rng, th, strategy=rng.choice(["default", "default", "nofast"]))
 
 
+def fam_cache2(rng):
+    """C16: many cache loads racing with many stores, addresses reused (stale 'unchanged' decisions)"""
+    th = []
+    ops = [{"op": "cache_new", "x": 0, "c": 0}]
+    for i in range(rng.randrange(4, 9)):
+        ops.append({"op": "cache_load", "x": 0})
+    th.append(ops)
+    for t in range(2, 2 + rng.choice([1, 1, 2])):
+        th.append([{"op": "store", "c": 0, "v": new()} for _ in range(rng.randrange(3, 8))])
+    return prog_with_setup(rng, th, strategy=rng.choice(["default", "nofast"]), reuse="lifo", pnull=0.0)
+
+
 FAMILIES = {
+    "cache2": fam_cache2,
     "access": fam_access,
     "adv": fam_adv,
     "solo": fam_solo,
@@ -561,6 +575,42 @@ def sandwich(tier="quick", start_id=0):
                 for k3 in (range(1, 4) if tier == "quick" else range(1, 9)):
                     jobs.append({"fam": "sandwich3:" + name, "prog": p,
                                  "sched": {"kind": "segs", "segs": [[1, k1], [2, k2], [1, k3], [2, 9999], [1, 9999]]}})
+    # Cache::load: a store lands at every point inside the load (between the "unchanged?" check and the reload),
+    # another one afterwards reuses the freed address (A-B-A on the address, C16)
+    for strat in ("default", "nofast"):
+        pc = {"threads": [[{"op": "new", "c": 0, "v": new()}],
+                          [{"op": "wait", "t": 0}, {"op": "cache_new", "x": 0, "c": 0}, {"op": "cache_load", "x": 0},
+                           {"op": "cache_load", "x": 0}, {"op": "cache_load", "x": 0}],
+                          [{"op": "wait", "t": 0}] + warm2 + [{"op": "store", "c": 0, "v": new()} for _ in range(4)]],
+              "strategy": strat, "reuse": "lifo"}
+        for first in (2, 3):            # the store(s) before the observing load
+            for k in range(1, 16):      # position inside the observing load
+                for inside in (1, 2):   # stores landing inside the load
+                    jobs.append({"fam": "until:cache-window", "prog": pc, "sched": {"kind": "until", "segs": [
+                        [1, "inv", first], [2, "inv", 4], [1, "#%d" % k, 1], [2, "inv", 1 + inside], [1, "inv", 2], [2, "", 1], [1, "", 1]]}})
+    # node re-claimed by a new thread while a writer is still inside it (cooldown / active_writers protocol, C11):
+    # A is stopped mid-fallback, W walks into A's node and is stopped, A finishes and exits, B claims A's node and is
+    # stopped mid-fallback on ANOTHER container, W resumes
+    p3 = {"threads": [[{"op": "new", "c": 0, "v": new()}, {"op": "new", "c": 1, "v": new()}],
+                      [{"op": "wait", "t": 0}, {"op": "load", "c": 0, "g": 16}, {"op": "deref_g", "g": 16}, {"op": "drop_g", "g": 16}],
+                      [{"op": "wait", "t": 0}] + warm2 + [{"op": "store", "c": 0, "v": new()}],
+                      [{"op": "wait", "t": 1}, {"op": "load", "c": 1, "g": 48}, {"op": "deref_g", "g": 48}, {"op": "drop_g", "g": 48}]],
+          "strategy": "nofast", "reuse": "never"}
+    for k1 in range(4, 12):
+        for k2 in (range(16, 40) if tier == "quick" else range(10, 50)):
+            for k3 in range(5, 13):
+                jobs.append({"fam": "sandwich:reclaim-under-writer", "prog": p3,
+                             "sched": {"kind": "segs", "segs": [[2, 13], [1, k1], [2, k2], [1, 9999], [3, k3], [2, 9999], [3, 9999]]}})
+    # generation wrap inside a writer's NESTED load (the writer helps a reader that is mid-fallback): W claims its node
+    # first and presets its counter, R is stopped at every step of its load, W stores
+    for back in (1, 2):
+        for strat in ("nofast",):
+            w = warm2 + [{"op": "set_gen", "back": back}, {"op": "store", "c": 0, "v": new()}, {"op": "store", "c": 0, "v": new()}]
+            p = prog(ld + ld, w, strat)
+            for kw in range(9, 19):
+                for k1 in range(0, 30):
+                    jobs.append({"fam": "sandwich:wrap-nested", "prog": p,
+                                 "sched": {"kind": "segs", "segs": [[2, kw], [1, k1], [2, 9999], [1, 9999]]}})
     for name, a, b, strat, ka, kb in (pairs_q if tier == "quick" else pairs_t):
         p = prog(a, b, strat)
         lo_a, lo_b = (8, 8) if a[:2] == warm else (0, 0)
